@@ -1,0 +1,113 @@
+//go:build verif
+
+// Package verifx re-exports aspen's internal packages for the external verification
+// harness (build tag verif). Type aliases and pass-throughs only.
+package verifx
+
+import (
+	"context"
+
+	"github.com/synnaxlabs/aspen/internal/cluster"
+	"github.com/synnaxlabs/aspen/internal/cluster/gossip"
+	"github.com/synnaxlabs/aspen/internal/cluster/pledge"
+	"github.com/synnaxlabs/aspen/internal/cluster/store"
+	"github.com/synnaxlabs/aspen/internal/kv"
+	"github.com/synnaxlabs/aspen/internal/node"
+	xkv "github.com/synnaxlabs/x/kv"
+)
+
+type (
+	NodeKey     = node.Key
+	Node        = node.Node
+	NodeGroup   = node.Group
+	NodeState   = node.State
+	NodeDigest  = node.Digest
+	NodeDigests = node.Digests
+
+	PledgeConfig   = pledge.Config
+	PledgeRequest  = pledge.Request
+	PledgeResponse = pledge.Response
+
+	GossipConfig  = gossip.Config
+	Gossip        = gossip.Gossip
+	GossipMessage = gossip.Message
+
+	Store       = store.Store
+	StoreState  = store.State
+	StoreChange = store.Change
+
+	Cluster       = cluster.Cluster
+	ClusterConfig = cluster.Config
+
+	KVConfig         = kv.Config
+	KVDB             = kv.DB
+	Operation        = kv.Operation
+	Digest           = kv.Digest
+	Digests          = kv.Digests
+	TxRequest        = kv.TxRequest
+	FeedbackMessage  = kv.FeedbackMessage
+	RecoveryRequest  = kv.RecoveryRequest
+	RecoveryResponse = kv.RecoveryResponse
+	Ingress          = kv.VerifIngress
+	Local            = kv.VerifLocal
+	GossipStore      = kv.VerifGossipStore
+)
+
+const (
+	NodeStateHealthy = node.StateHealthy
+	NodeStateSuspect = node.StateSuspect
+	NodeStateDead    = node.StateDead
+	NodeStateLeft    = node.StateLeft
+
+	GossipStateInfected  = kv.VerifGossipStateInfected
+	GossipStateRecovered = kv.VerifGossipStateRecovered
+)
+
+var (
+	PledgeDefaultConfig     = pledge.DefaultConfig
+	PledgeFastConfig        = pledge.FastConfig
+	PledgeBlazingFastConfig = pledge.BlazingFastConfig
+	GossipDefaultConfig     = gossip.DefaultConfig
+	ClusterDefaultConfig    = cluster.DefaultConfig
+	KVDefaultConfig         = kv.DefaultConfig
+)
+
+func Pledge(ctx context.Context, cfgs ...pledge.Config) (pledge.Response, error) {
+	return pledge.Pledge(ctx, cfgs...)
+}
+
+func Arbitrate(cfgs ...pledge.Config) error { return pledge.Arbitrate(cfgs...) }
+
+func NewGossip(cfgs ...gossip.Config) (*gossip.Gossip, error) { return gossip.New(cfgs...) }
+
+func NewStore(ctx context.Context) store.Store { return store.New(ctx) }
+
+func OpenCluster(ctx context.Context, cfgs ...cluster.Config) (*cluster.Cluster, error) {
+	return cluster.Open(ctx, cfgs...)
+}
+
+func OpenKV(ctx context.Context, cfgs ...kv.Config) (*kv.DB, error) { return kv.Open(ctx, cfgs...) }
+
+func NewIngress(cfg kv.Config) *kv.VerifIngress { return kv.NewVerifIngress(cfg) }
+
+func NewLocal(ctx context.Context, cfg kv.Config) (*kv.VerifLocal, error) {
+	return kv.NewVerifLocal(ctx, cfg)
+}
+
+func NewGossipStore(cfg kv.Config) *kv.VerifGossipStore { return kv.NewVerifGossipStore(cfg) }
+
+func Supersedes(ctx context.Context, r xkv.Reader, op kv.Operation) (bool, error) {
+	return kv.VerifSupersedes(ctx, r, op)
+}
+
+func GetDigest(ctx context.Context, r xkv.Reader, key []byte) (kv.Digest, error) {
+	return kv.VerifGetDigest(ctx, r, key)
+}
+
+func OpState(op kv.Operation) byte { return kv.VerifOpState(op) }
+
+func RunRecovery(ctx context.Context, cfg kv.Config) error { return kv.VerifRunRecovery(ctx, cfg) }
+
+func LoadHighWater(ctx context.Context, cfg kv.Config) (int64, error) {
+	return kv.VerifLoadHighWater(ctx, cfg)
+}
